@@ -189,17 +189,28 @@ func c02LegalLens(s *bind.Slot, thorough bool) []int {
 			out = append(out, v)
 		}
 	}
+	// the lengths just below the maximum (sums of lengths crossing 2^16, 2^8 …)
+	top := 40
+	if thorough {
+		top = 300
+	}
 	if !thorough {
 		for _, v := range []int{s.Min, s.Min + 1, (s.Min + s.Max) / 2, s.Max - 1, s.Max} {
 			add(v)
 		}
+		for v := s.Max - top; v < s.Max; v++ {
+			add(v)
+		}
 		return out
 	}
-	top := s.Max
-	if top > 2100 {
-		top = 2100
+	for v := s.Max - top; v < s.Max; v++ {
+		add(v)
 	}
-	for v := s.Min; v <= top; v++ {
+	upTo := s.Max
+	if upTo > 2100 {
+		upTo = 2100
+	}
+	for v := s.Min; v <= upTo; v++ {
 		add(v)
 	}
 	for k := 11; k <= 16; k++ {
